@@ -59,8 +59,11 @@ func c05Data(k *fw.K, class int, shape []int) (*ref.T, string) {
 		return t, []string{"all-equal", "ascending", "descending", "powers-of-two", "denormals", "1e150"}[pat]
 	case 3: // a large common offset relative to the spread (where one-pass variance formulas cancel catastrophically)
 		t := Shuffled(k.Rng, Unique(k.Rng, shape, 0.5, 4))
-		off := []float64{1e6, -3e8, 1e9, 1e7}[k.Rng.Intn(4)]
+		off := []float64{1e6, -3e8, 1e9, 1e7, 2e154, -3e155}[k.Rng.Intn(6)]
 		for i := range t.Data {
+			if math.Abs(off) > 1e100 { // a mean whose SQUARE overflows while the variance (spread 1e150) is an ordinary finite number
+				t.Data[i] *= 1e150
+			}
 			t.Data[i] += off
 		}
 		return t, "offset"
